@@ -105,6 +105,54 @@ EDITS = {
  "E62-rename-field-windCount2": [("@sed", {"windCount2": "otherSetWind"})],
  "E63-rename-fields-offset-engine": [("@sed", {"pathOut": "scratchPath", "isSortedMinimaList": "minimaSorted", "joinWith": "joinedTo", "horzJoinList": "pendingHorzJoins", "groupDelta": "signedDelta"})],
  "E64-rename-fields-int128-outpt2": [("@sed", {"ownerIdx": "ringIdx", "leftToRight": "ltr", "stepSin": "arcSin", "stepsPerRad": "arcStepsPerRad"})],
+ "E66-zero-horz-restated": [("engine.go", """	if horz.bot.X == horz.top.X {
+		leftX = horz.curX
+		rightX = horz.curX
+		ae := horz.nextInAEL
+		for ae != nil && ae.vertexTop != vertexMax {
+			ae = ae.nextInAEL
+		}
+		return leftX, rightX, ae != nil
+	}""", """	if horz.top.X == horz.bot.X {
+		// zero-length horizontal: head towards the maxima pair
+		pairOnRight := false
+		for ae := horz.nextInAEL; ae != nil; ae = ae.nextInAEL {
+			if ae.vertexTop == vertexMax {
+				pairOnRight = true
+				break
+			}
+		}
+		return horz.curX, horz.curX, pairOnRight
+	}""")],
+ "E67-inside-arm-helper": [("rect_clip.go", """			switch {
+			case path[*i].X < r.rect.left:
+				*loc = Left
+			case path[*i].X > r.rect.right:
+				*loc = Right
+			case path[*i].Y > r.rect.bottom:
+				*loc = Bottom
+			case path[*i].Y < r.rect.top:
+				*loc = Top
+			default:
+				r.add(path[*i], false)
+				*i++
+				continue
+			}
+			break""", """			pt := path[*i]
+			if r.rect.left > pt.X {
+				*loc = Left
+			} else if pt.X > r.rect.right {
+				*loc = Right
+			} else if !(pt.Y <= r.rect.bottom) {
+				*loc = Bottom
+			} else if pt.Y < r.rect.top {
+				*loc = Top
+			} else {
+				r.add(pt, false)
+				*i++
+				continue
+			}
+			break""")],
  "E18-comment-and-blank-lines": [("rect_clip.go", "func (r *RectClip64) getNextLocation(path Path64, loc *Location, i *int, highI int) {\n	switch *loc {", "// getNextLocation advances i to the next vertex that leaves the current location.\nfunc (r *RectClip64) getNextLocation(path Path64, loc *Location, i *int, highI int) {\n\n	switch *loc {")],
 }
 def main():
